@@ -224,16 +224,25 @@ class SeqResult:
         self.distinct_nontrivial = 0
 
 def compare_case(header, ops, real, ms, proj_model, proj_spec):
-    """returns (k_idx, f_idx): first op index with a model/real resp. spec/real difference (or None)"""
+    """returns (k_idx, f_idx).
+    k_idx: the first op at which the real and the model outputs differ AT ALL is the divergence point; the
+           correspondence of THIS property is broken iff its projected fields differ there (after a divergence in
+           fields the property is not about, the model state is out of step for unrelated reasons and later ops are
+           not compared for it).
+    f_idx: first op whose real output violates the spec (the spec column judges real observations only, so it is
+           evaluated on every op)."""
     k_idx = f_idx = None
+    diverged = False
     for i, (r, m) in enumerate(zip(real, ms)):
         parts = m.split("\t")
         mo = parts[0]
         so = parts[1] if len(parts) > 1 else "-"
         if hasattr(proj_spec, "filter"):      # shared suites: keep only this property's verdict
             so = proj_spec.filter(so)
-        if k_idx is None and proj_model(r) != proj_model(mo):
-            k_idx = i
+        if not diverged and r != mo:
+            diverged = True
+            if proj_model(r) != proj_model(mo):
+                k_idx = i
         if f_idx is None and so != "-":
             if so.startswith("!"):          # trace monitor: the real answer violates the property here
                 f_idx = i
@@ -241,7 +250,7 @@ def compare_case(header, ops, real, ms, proj_model, proj_spec):
                 ps, pr = proj_spec(so), proj_spec(r)
                 if ps is not None and ps != pr:
                     f_idx = i
-        if k_idx is not None and f_idx is not None:
+        if diverged and f_idx is not None:
             break
     return k_idx, f_idx
 
